@@ -74,6 +74,13 @@ def run(ctx, rep):
                 hit = is_step_vector(target, memo) or iter_over_steps(target, memo)
                 if hit:
                     seen_pos.setdefault(t.op, t)
+        # a branch on the number of steps makes results depend on how time is subdivided
+        for t in tm.subterms(e.result):
+            if t.op in ("lt", "le", "eq") and len(t.a) == 2:
+                a, b = t.a
+                for x, y in ((a, b), (b, a)):
+                    if y.op == "num" and x.op == "len" and (is_step_vector(x.a[0], memo) or iter_over_steps(x.a[0], memo)):
+                        seen_pos.setdefault("len-guard", t)
         for op, t in seen_pos.items():
             # indexing a component list (not the step axis) is fine; the step axis is not
             rep.violated("C09/T1/%s/lm=%d" % (op, lm),
